@@ -249,7 +249,7 @@ func checkRoundTrip(c *mon.Ctx, stage string, idx int64, hr *HistRun) {
 }
 
 func runC01(c *mon.Ctx) {
-	n := c.Pick(600, 6000)
+	n := c.Pick(2000, 10000)
 	for i := int64(0); i < n; i++ {
 		if !c.Mine("histories", i) {
 			continue
